@@ -35,12 +35,12 @@ SR = "optimism.ScalarRootFind"
 def run(ctx):
     ctx.need_module(SR)
     rt = ctx.need(f"{SR}:rtsafe_")
-    o1_o2(ctx, rt)
-    o3_o4(ctx, rt)
-    o5_o6(ctx, rt)
-    o7(ctx)
+    ctx.guard(o1_o2, ctx, rt)
+    ctx.guard(o3_o4, ctx, rt)
+    ctx.guard(o5_o6, ctx, rt)
+    ctx.guard(o7, ctx)
     from .common import settings_wiring
-    settings_wiring(ctx, "O4/T5-settings-wiring", SR)
+    ctx.guard(settings_wiring, ctx, "O4/T5-settings-wiring", SR)
     ctx.trust("jax.lax.custom_root(f, x0, solve, tangent_solve) differentiates the root implicitly with tangent_solve(g, y) = y / g(1) for scalar g")
 
 
